@@ -191,6 +191,21 @@ ScalarOut(reg, c, u, form) ==
                  ELSE LET q == SimpleQuantity(reg, c, u) IN
                       IF q.k # "ok" THEN Exc(q.k) ELSE Out("ok", <<q.c, q.u, q.qt>>, "", cv.x, ValidValue(reg, q, cv.x))
 
+\* ---- FindUnitCase(category, unit): the unit of the category's quantity type that equals the given one when case is ignored -----
+LowerCh(c) == CASE c = "A" -> "a" [] c = "B" -> "b" [] c = "C" -> "c" [] c = "D" -> "d" [] c = "E" -> "e" [] c = "F" -> "f" [] c = "G" -> "g"
+                [] c = "H" -> "h" [] c = "I" -> "i" [] c = "J" -> "j" [] c = "K" -> "k" [] c = "L" -> "l" [] c = "M" -> "m" [] c = "N" -> "n"
+                [] c = "O" -> "o" [] c = "P" -> "p" [] c = "Q" -> "q" [] c = "R" -> "r" [] c = "S" -> "s" [] c = "T" -> "t" [] c = "U" -> "u"
+                [] c = "V" -> "v" [] c = "W" -> "w" [] c = "X" -> "x" [] c = "Y" -> "y" [] c = "Z" -> "z" [] OTHER -> c
+RECURSIVE LowerS(_, _)
+LowerS(s, i) == IF i > Len(s) THEN "" ELSE LowerCh(SubSeq(s, i, i)) \o LowerS(s, i + 1)
+Lower(s) == LowerS(s, 1)
+FindUnitCase(reg, c, u) ==
+  IF c \notin DOMAIN reg.cats THEN Exc("UNITS")
+  ELSE LET qt == reg.cats[c].qt
+           m  == { x \in UnitSet(reg, qt) : Lower(x) = Lower(u) } IN
+       IF qt \notin DOMAIN reg.order THEN Exc("UNITS")
+       ELSE IF Cardinality(m) = 1 THEN OkT(CHOOSE x \in m : TRUE) ELSE Exc("ASSERT")
+
 \* ---- the reference outcome and effect of a call c = [op, a] -------------------------------------
 IsRegistration(op) == op \in {"AddUnit", "AddUnitBase", "AddUnitBad", "AddCategory", "Clear"}
 Effect(reg, c) ==
@@ -209,6 +224,7 @@ Effect(reg, c) ==
     [] c.op = "GetBaseUnit"     -> [out |-> IF c.a.qt \in DOMAIN reg.order THEN OkT(reg.order[c.a.qt][1]) ELSE Exc("UNITS"), reg |-> reg]
     [] c.op = "GetUnits"        -> [out |-> IF c.a.qt \in DOMAIN reg.order THEN OkS(reg.order[c.a.qt]) ELSE Exc("UNITS"), reg |-> reg]
     [] c.op = "CountUnits"      -> [out |-> OkX(R(Cardinality(DOMAIN reg.units))), reg |-> reg]     \* len(GetUnits()): all units of all types
+    [] c.op = "FindUnitCase"    -> [out |-> FindUnitCase(reg, c.a.c, c.a.u), reg |-> reg]
     [] c.op = "GetQuantityType" -> [out |-> OkT(IF c.a.u \in DOMAIN reg.units THEN reg.units[c.a.u].qt ELSE ""), reg |-> reg]
     [] c.op = "GetDefaultCategory" -> [out |-> DefaultCategory(reg, c.a.u), reg |-> reg]
     [] c.op = "Convert"         -> [out |-> ConvertOut(reg, c.a.q, c.a.u, c.a.v, c.a.x), reg |-> reg]
